@@ -50,9 +50,11 @@ def fill(chk, NA):
         "reader must accept the output: constructs intact on one line, separators as in the source, tag lines alone and unindented, enclosed blocks blank-line separated.",
         A12 + " Overlap semantics of ATOMIC_CONSTRUCT_PATTERN on arbitrary text (backreference) is not encoded; covered through the construct vocabulary only.", "dynamic symbolic execution of reformat_text + reference word reader", "DESIGN.md §3 C06")
     chk("C07", "model_checking",
-        "12 concrete frontmatter blocks (quotes, dots, long lines, exotic separators, CRLF, padded delimiters) x body skeletons x option sets on joint paths: format(fm+body) == fm' + format(body); "
-        "unclosed opening returned unchanged and stable over three runs. Body lengths and width symbolic.",
-        A12 + " Frontmatter content itself is concrete (enumerated); precondition: the body does not start with '---'.", "dynamic symbolic execution of two runs per path (with / without frontmatter)", "DESIGN.md §3 C07")
+        "20 concrete frontmatter blocks (quotes, dots, long lines, exotic separators, CRLF, padded delimiters) x body skeletons x option sets on joint paths: format(fm+body) == fm' + format(body); "
+        "unclosed opening returned unchanged and stable over three runs. Body lengths and width symbolic. Plus a z3 string lemma: the current source of split_frontmatter executed on K symbolic lines "
+        "(K<=4 quick, 6 thorough; printable ASCII, <=8 chars each) agrees with a reference reading of 'block delimited by --- lines' on every path and case (all queries unsat).",
+        A12 + " Frontmatter content in the document sweep is concrete (enumerated); the lemma's alphabet excludes CR, FF and Unicode separators (left to the concrete blocks); precondition: the body does not start with '---'.",
+        "dynamic symbolic execution of two runs per path (with / without frontmatter) + lifted split_frontmatter on z3 strings", "DESIGN.md §3 C07")
     chk("C08", "model_checking",
         "Document differential smartquotes on vs off on joint paths (other options enumerated): equal length and line breaks, differences only at ' or \" positions outside literal spans, literal spans equal.",
         A12 + " Literal-span positions in the output text are located by a regex scanner.", "dynamic symbolic execution of two runs per path + character-level differential", "DESIGN.md §3 C08")
